@@ -69,6 +69,12 @@ def run(tier):
     g6 = [json.loads(l)["steps"] for l in open(os.path.join(
         vlib_root(), "findings", "G6-stale-cleanup-deletes-newer-snapshot.stim.ndjson"))]
     cconform(v, wd, "stale-cleanup-newer-snapshot", cconsts(Ops=ops | {"GC"}), g6, obs_invs=OBSI)
+    # the sibling schedule: the other client's version is added BETWEEN the stale cleanup's read
+    # of "latest" and its listing of the versions, so the cleanup lists a version that is not on
+    # its chain (and must not touch that version's snapshot either: seed C10j)
+    g6b = [json.loads(l)["steps"] for l in open(os.path.join(
+        vlib_root(), "findings", "G6b-stale-cleanup-lists-newer-version.stim.ndjson"))]
+    cconform(v, wd, "stale-cleanup-lists-newer-version", cconsts(Ops=ops | {"GC"}), g6b, obs_invs=OBSI)
     if thorough:
         # anti-vacuity: the former rule (every other snapshot is redundant) is refuted ...
         deep = cconsts(Ops={"AV", "AS", "GC"}, MaxOps=6, MaxVer=4, Draws={0, 255}, WithAges=True)
